@@ -24,8 +24,22 @@ func init() {
 }
 
 func runC06(w *World, r *Report) {
+	r.Rule("shadow", "no := in an inner scope re-declares a same-typed variable of the function that is read afterwards (or a named result): the value computed there would be lost", 1)
+	shadowRule(w, r, "shadow", func(fi *FuncInfo) bool {
+		return fi.Pkg.Types.Name() == "openflow13" || fi.Pkg.Types.Name() == "protocol" || fi.Pkg.Types.Name() == "common"
+	})
 	r.Rule("observers", "methods that formatting calls implicitly (String, Error, …) leave the value unchanged", 1)
 	observerRule(w, r, "observers", "openflow13", "protocol", "util")
+	r.Rule("nowrap", "no size function of a packet-header kind computes a length in arithmetic narrower than 16 bits that the field ranges can overflow (the C09 rule; a wrapped size cuts the header short)", 10)
+	{
+		r2 := NewReport(r.Prop, r.Tier)
+		runC09(w, r2)
+		for _, o := range r2.Obs {
+			if o.Rule == "nowrap" {
+				r.Add(o)
+			}
+		}
+	}
 	r.Rule("declen", "stored length fields the size rules rely on are kept equal to the element size by every constructor and builder", 13)
 	declenRule(w, r)
 	r.Rule("size", "sizeM ≡ sizeL (and extentM ≡ sizeL up to round8) as symbolic terms, per kind", 100)
